@@ -495,6 +495,7 @@ def run(chk, F):
     ]
     rule_r14(chk, F)
     rule_r18(chk, F)
+    rule_r19(chk, F)
     from rules import c02_modewidth
     c02_modewidth.run(chk, F)
     from rules import a64; a64.run_c02(chk, F)  # noqa: E702  arm64 siblings (aarch64 fact set)
@@ -559,3 +560,48 @@ def rule_r18(chk, F):
                         "argument overwrites the caller's lowest frame slot)" % last(p),
                         "%s:%d" % (b["file"], b["line"]))
     r.floor("routines that use the number of integer parameter registers", n, 6)
+
+
+def rule_r19(chk, F):
+    """C02.R19: the conversion intrinsics carry their operand types in their names (`Int64ToFloat32`); the baseline
+    compiler looks up the machine modes of source and destination in small tables keyed by the intrinsic.  A row whose
+    modes disagree with the name (a copy-paste of the neighbouring row) converts at the wrong width — only the low word
+    of a 64-bit source — while the optimizing compiler, which has its own lowering, does not."""
+    import re
+    r = chk.rule("C02.R19", "in every table of the baseline compiler keyed by a conversion intrinsic `<Src>To<Dst>`, the "
+                            "machine modes of the row are the modes of Src and Dst")
+    cc = F.crate("dora_cannon_compiler")
+    ty2mode = {"Int32": "Int32", "Int64": "Int64", "Float32": "Float32", "Float64": "Float64", "UInt8": "Int8",
+               "Char": "Int32", "Bool": "Int8"}
+    n = 0
+    for p, b in sorted(cc.hir.items()):
+        for m in hirq.walk(b["body"]):
+            if m[0] != "match":
+                continue
+            for pat, guard, body in m[2]:
+                names = [last(x[1][2]) for x in hirq.walk(pat) if x[0] == "ppath" and "::Intrinsic::" in x[1][2]]
+                if len(names) != 1:
+                    continue
+                mm = re.match(r"^(UInt8|Int32|Int64|Float32|Float64|Char|Bool)To(UInt8|Int32|Int64|Float32|Float64|Char|Bool)$",
+                              names[0])
+                if not mm:
+                    continue
+                bs = hirq.strip(body)
+                if not (hirq.is_node(bs) and bs[0] == "tup"):
+                    continue
+                modes = [last(hirq.strip(x)[2]) for x in bs[1]
+                         if hirq.is_node(hirq.strip(x)) and hirq.strip(x)[0] == "def" and "MachineMode::" in hirq.strip(x)[2]]
+                if len(modes) != 2:
+                    continue
+                n += 1
+                want = (ty2mode[mm.group(1)], ty2mode[mm.group(2)])
+                key = "%s:%s" % (p, names[0])
+                r.instance(key, sample={"intrinsic": names[0], "modes": modes, "expected": list(want)})
+                if tuple(modes) != want:
+                    r.violation("%s:modes-%s-%s" % (key, modes[0], modes[1]),
+                                "the row for Intrinsic::%s gives the machine modes (%s, %s); its name says (%s, %s): the "
+                                "conversion is carried out at the wrong operand width (e.g. Int64.to_float32() converts "
+                                "only the low 32 bits: 4294967296 becomes 0.0) in the baseline compiler only"
+                                % (names[0], modes[0], modes[1], want[0], want[1]),
+                                "%s:%d" % (b["file"], b["line"]))
+    r.floor("conversion-intrinsic rows with a pair of machine modes", n, 8)
